@@ -40,7 +40,7 @@ def classify_crash(wit, errtxt, rc):
 def plan(tier):
     if tier == "thorough":
         return [{"variant": "plain", "workers": 16, "cases": 16000}]
-    return [{"variant": "plain", "workers": 8, "cases": 450}]
+    return [{"variant": "plain", "workers": 16, "cases": 700}]
 
 
 def run(ctx):
@@ -182,6 +182,30 @@ def run(ctx):
                 cat = node.bad.split(":")[0]
                 if e is not None:
                     ctx.count("outcome.refused." + cat)
+                    # a refused IN-PLACE operation must leave its left operand as it was
+                    k0 = node.kids[0] if node.kids else None
+                    if node.op in ("iadd", "isub", "imul", "idiv") and isinstance(k0, S.Node) and k0.bad is None \
+                            and type(kids[0]) is M._function:
+                        ctx.count("check.refused-inplace-left-operand-unchanged")
+                        try:
+                            lg0 = len(kids[0])
+                        except Exception:
+                            lg0 = None
+                        c.require(lg0 == k0.L, "%s:refused-but-left-operand-modified" % node.op,
+                                  "after the refused %s the left operand has length %r, formula gives %r" % (node.op, lg0, k0.L))
+                        for _ in range(2):
+                            vals0 = S.rand_values(rng, vars_, scale=3.0)
+                            setvals(rv, vars_, vals0)
+                            try:
+                                g0 = np.array(list(kids[0].value()), dtype=float)
+                            except Exception as ex0:
+                                g0 = None
+                            w0 = k0.fn(vals0)
+                            ok0 = g0 is not None and g0.shape == w0.shape and \
+                                float(np.max(np.abs(g0 - w0))) <= TOL * max(1.0, float(np.max(k0.mg(vals0))))
+                            if not c.require(ok0, "%s:refused-but-left-operand-modified" % node.op,
+                                             "the refused in-place %s changed its left operand: value %r, formula %r" % (node.op, g0, w0)):
+                                break
                     return
                 ctx.count("outcome.wrongly-accepted")
                 detail = {"returned": repr(r)}
@@ -287,9 +311,16 @@ def run(ctx):
                 fk = [k for k in kids if type(k) is M._function]
                 if fk:
                     ctx.count("check.alias.result")
-                    before = [np.array(list(k.value())) for k in fk]
-                    r *= rng.choice([2.5, -1.5]); r += 1.25
-                    after = [np.array(list(k.value())) for k in fk]
+                    try:
+                        before = [np.array(list(k.value())) for k in fk]
+                        r *= rng.choice([2.5, -1.5]); r += 1.25
+                        after = [np.array(list(k.value())) for k in fk]
+                    except Exception as ex_:
+                        c.check()
+                        c.fail("%s:operand-or-result-unusable-after-inplace-change" % node.op,
+                               "scaling the result of %s in place (r *= a; r += b) and re-evaluating its operands raised %s: %s"
+                               % (node.op, type(ex_).__name__, ex_))
+                        raise S.Abort()
                     c.require(all(np.array_equal(a, b) for a, b in zip(before, after)),
                               "%s:operand-aliases-result" % node.op,
                               "in-place change of the result changed an operand", before=before, after=after)
